@@ -201,4 +201,45 @@ func (c *Ctx) ruleDelegateWiring(id string, d *dstate) {
 		}
 		ru.Check(found, key, c.where(d.mergeRemote, d.mergeRemote), "passed to a routine that writes the store", "this kind of state is dropped on reception: replicas never converge on it")
 	}
+	// the kinds of state are merged independently of one another: once the first merge routine is reached, every
+	// return of the function that hands the fields out is reached through all of them (an entry refused in one kind
+	// must not keep the other kinds of the same event from being merged)
+	for _, g := range c.funcsDeepStop(d.mergeRemote, 2, func(x *ssa.Function) bool { return x.Package() != d.pkg || c.writesStore(d, x, 3) }) {
+		var merges []*core.Call
+		for _, cl := range core.CallsIn(g) {
+			if cl.Static == nil || cl.Static.Package() != d.pkg || !c.writesStore(d, cl.Static, 3) {
+				continue
+			}
+			for _, a := range cl.Common.Args {
+				if depReaches(a, func(v ssa.Value) bool {
+					fa, ok := v.(*ssa.FieldAddr)
+					return ok && isNamed(fa.X.Type(), "wasp/api", "StateBroadcastEvent")
+				}) {
+					merges = append(merges, cl)
+					break
+				}
+			}
+		}
+		if len(merges) < 2 {
+			continue
+		}
+		first := merges[0]
+		for _, m := range merges {
+			if core.Dominates(m.Instr, first.Instr) {
+				first = m
+			}
+		}
+		bad := ""
+		for _, rb := range g.Blocks {
+			if _, isRet := rb.Instrs[len(rb.Instrs)-1].(*ssa.Return); !isRet || !first.Instr.Block().Dominates(rb) {
+				continue
+			}
+			for _, m := range merges {
+				if !m.Instr.Block().Dominates(rb) {
+					bad = "the function can return (" + c.P.Pos(lastPos(rb)) + ") after " + c.fname(first.Static) + " without having called " + c.fname(m.Static) + ": a refused entry of one kind leaves the other kinds of the same event unmerged"
+				}
+			}
+		}
+		ru.Check(bad == "", "the merges of "+c.fname(g)+" are independent", c.where(g, g), fmt.Sprintf("%d merge call(s), all reached on every path once the first is", len(merges)), bad)
+	}
 }
